@@ -146,6 +146,50 @@ TABLE.update({
  ]),
 })
 
+TABLE.update({
+ "C09": ("operators refuse invalid inputs and results keep the promised structure", ["Base", "Scalar", "Tensor", "Pexpr", "Exec", "Ops", "Struct", "OpsProps"], [
+   ("integrate_refuses_struct", "C09_integrate_refuses_struct", "integrate refuses (structural-property error) every circuit that is not smooth and decomposable"),
+   ("integrate_refuses_empty", "C09_integrate_refuses_empty", "... refuses an empty scope"),
+   ("integrate_refuses_outside", "C09_integrate_refuses_outside", "... and variables outside the circuit scope"),
+   ("differentiate_refuses_struct", "C09_differentiate_refuses_struct", "differentiate refuses circuits that are not smooth and decomposable"),
+   ("differentiate_refuses_order", "C09_differentiate_refuses_order", "... and a non-positive order"),
+   ("multiply_refuses_incompatible", "C09_multiply_refuses_incompatible", "multiply refuses every pair that is not compatible"),
+   ("multiply_refuses_scope", "C09_multiply_refuses_scope", "... and operands over different scopes"),
+   ("evidence_refuses_empty", "C09_evidence_refuses_empty", "evidence refuses an empty observation"),
+   ("evidence_refuses_outside", "C09_evidence_refuses_outside", "... and variables outside the scope"),
+   ("integrate_structure", "C09_integrate_result", "whenever integrate returns, the result is smooth and decomposable, every scope is the original minus Z, outputs and layer count are unchanged"),
+   ("evidence_structure", "C09_evidence_result", "whenever evidence returns, scopes are the originals minus the observed variables and smoothness / decomposability are preserved"),
+   ("conjugate_structure", "C09_conjugate_result", "conjugation preserves scopes and all structural flags"),
+   ("conjugate_structure_more", "C09_conjugate_result_compat", "... including compatibility with any other circuit"),
+ ]),
+ "C10": ("derived circuits introduce no learnable parameters", ["Base", "Scalar", "Tensor", "Pexpr", "Exec", "Ops", "Struct", "OpsProps"], [
+   ("integrate_no_new_learnable", "C10_integrate", "every learnable tensor of integrate(c) is a learnable tensor of c"),
+   ("multiply_no_new_learnable", "C10_multiply", "every learnable tensor of multiply(a,b) belongs to a or to b"),
+   ("differentiate_no_new_learnable", "C10_differentiate", "idem for differentiate"),
+   ("conjugate_no_new_learnable", "C10_conjugate", "idem for conjugate"),
+   ("evidence_no_new_learnable", "C10_evidence", "idem for evidence"),
+   ("concatenate_no_new_learnable", "C10_concatenate", "every learnable tensor of concatenate(cs) belongs to an operand"),
+ ]),
+ "C11": ("marginal queries = per-sample integration (executable level)", ["Base", "Circ", "Integrate", "Scalar", "Tensor", "Pexpr", "Exec", "Ops", "Struct", "Link"], [
+   ("integrate_exec_den", "C11_marginal_is_sum", "on the algebraic fragment, every unit of every node of the executable integrate_m result is the iterated sum, over all states of the integrated variables in that node's scope, of the executable denotation of the original circuit"),
+   ("den_all_spec", "C11_denotation_is_semantic", "the executable denotation is the semantic evaluation of the interpreted circuit (defined exactly when every embedding index is in range)"),
+ ]),
+})
+TABLE["C03"][2].extend([
+   ("integrate_exec_correct", "C03_integrate_executable", "link: the executable operator integrate_m (model of cirkit.symbolic.functional.integrate on the algebraic fragment: Embedding / constant inputs, sums, Hadamard and Kronecker products) evaluates to the iterated sum of the semantic evaluation of the interpreted circuit"),
+   ("integrate_exec_den", "C03_integrate_executable_den", "... stated purely on the executable denotation"),
+])
+TABLE["C03"] = (TABLE["C03"][0], ["Base", "Circ", "Integrate", "Scalar", "Tensor", "Pexpr", "Exec", "Ops", "Struct", "Link"], TABLE["C03"][2])
+TABLE["C07"][2].extend([
+   ("conjugate_link", "C07_conjugate_executable", "link: on the algebraic fragment the executable conjugate_m result denotes the entrywise conjugate of the executable denotation"),
+])
+TABLE["C07"] = (TABLE["C07"][0], ["Base", "Circ", "OpsSimple", "Scalar", "Tensor", "Pexpr", "Exec", "Ops", "Struct", "Link"], TABLE["C07"][2])
+TABLE["C01"][2].extend([
+   ("den_all_spec", "C01_denotation_is_semantic", "the executable denotation den_all used as reference by the correspondence check is the semantic evaluation of the interpreted circuit (algebraic fragment)"),
+   ("den_prep", "C01_prep_invariant", "pre-evaluating parameter expressions does not change the denotation (any layer kind)"),
+])
+TABLE["C01"] = (TABLE["C01"][0], ["Base", "Circ", "Hom", "Gen", "Fold", "FoldCheck", "Scalar", "Tensor", "Pexpr", "Exec", "Ops", "Struct", "Link"], TABLE["C01"][2])
+
 if __name__ == "__main__":
     for pid in (sys.argv[1:] or TABLE):
         gen(pid, *TABLE[pid])
